@@ -8,7 +8,7 @@ REPS = {
     'Unit': ['U'],
     'True': ['T'],
     'False': ['F'],
-    'Number': ['(i 0)', '(i 5)', '(i -3)', fb(1.5), '(i 1)'],
+    'Number': ['(i 0)', '(i 5)', '(i -3)', fb(1.5), '(i 1)', fb(5.0)],   # 5.0 next to 5: equal magnitude, different kind (interning)
     'Type': ['(ty Number)', '(ty List)'],
     'Char': ['(c 97)', '(c 233)'],
     'CharList': ['(cl)', '(cl 97)', '(cl 97 98 99)'],
@@ -19,7 +19,7 @@ REPS = {
     'Pair': ['(p (s 5) (i 1))', '(p (i 1) (i 2))', '(p (s 11) (l (i 1) (i 2)))'],
     'Range': ['(r (i 1) (i 4))', '(r (i 0) (i 1))'],
     'Concatenation': ['(cat (i 1) (i 2))', '(cat (l (i 1) (p (s 5) (i 2))) (i 3))'],
-    'Slice': ['(sl (l (i 1) (i 2) (i 3)) (r (i 0) (i 2)))'],
+    'Slice': ['(sl (l (i 1) (i 2) (i 3)) (r (i 0) (i 2)))', '(sl (cl 97 98 99) (r (i 0) (i 1)))', '(sl (bl 1 2 3) (r (i 1) (i 2)))'],
     'Partial': ['(pa (e 1) (i 1))', '(pa (i 2) (i 1))'],
     'List': ['(l)', '(l (i 1))', '(l (i 1) (p (s 5) (i 2)) (cl 97))', '(l (p (s 5) (i 1)) (p (s 11) (i 2)))'],
     'Expression': ['(e 1)'],
